@@ -402,7 +402,7 @@ static int meta_fault(const char *op, const char *rel, long *seq_out) {
     long seq = g_seq++;
     *seq_out = seq;
     struct rule *r = rule_at(seq);
-    if (r) {
+    if (r && r->lie_size < 0) {   /* (a size rule is applied by the caller, after the real call) */
         r->used = 1;
         if (r->err && r->err != EINTR) { logev(seq, op, -1, rel, 0, -1, r->err, 1); errno = r->err; return 1; }
     }
